@@ -421,6 +421,90 @@ theorem C03_entered_empty_at_return (p : Program τ) (hwf : p.wellFormed = true)
     rw [(start_fields LoopEnv p.period p.stamp p.houses p.world).2.1]; simp
   exact ⟨run_inv idleEmpty_step fuel _ hidle, run_inv sweepYield_step fuel _ hev⟩
 
+/-- **START enters the outline of the first frame — every time.** Whatever happened to the framer before
+(earlier visits, stops, transitions to other outlines and back), a START of a stopped or readied framer makes
+the entered frames exactly the outline of its first frame, top frame first, as the program gives it — not a
+list left over from an earlier visit. (This holds also when an enter action crashes.) -/
+theorem C03_start_enters_first_outline (i : Nat) (w : World τ)
+    (hidle : (w.framers i).status = .stopped ∨ (w.framers i).status = .readied) :
+    ((table i .start w).w.framers i).actives = outline (w.framers i).frames (w.framers i).first ∧
+    ((table i .start w).w.framers i).frames = (w.framers i).frames := by
+  have heq : table i .start w = startIdle i w := by
+    unfold table
+    rcases hidle with h | h <;> simp [h]
+  rw [heq]
+  have hk : KeepA (enterAll i (setDesire i .run w)).w (startIdle i w).w := by
+    unfold startIdle
+    exact keepA_andThen (keepA_andThen (keepA_refl _) (fun w1 => keepA_runFrames i .recur _ w1))
+      (fun w2 => keepA_setStatus i .started w2)
+  obtain ⟨ha, hf⟩ := enterAll_actives i (setDesire i .run w)
+  have hd := keepA_setDesire i .run w i
+  rw [(hk i).2, (hk i).1, ha, hf, hd.1]
+  have : ((setDesire i .run w).framers i).first = (w.framers i).first := by
+    simp [setDesire, World.modF]
+  rw [this]; exact ⟨rfl, rfl⟩
+
+/-- **Exits are bottom-up on every visit, not only the first.** In every state that any run of any
+well-formed program reaches — after any number of passes, stops and restarts, transitions from one outline to
+another and back, crashes — and in the state `run` returns, the entered frames of every framer are either
+none or exactly the outline of one frame of its program: that frame's chain of over frames, top first, as
+the program gives it. So whenever a started or running framer is resumed with ABORT, on whichever visit, the
+exit marks it leaves are those of such an outline reversed: each under frame before its over frame. -/
+theorem C03_exits_bottom_up_every_visit (p : Program τ) (hwf : p.wellFormed = true) (fuel : Nat) :
+    let F := fun k => (p.world.framers k).frames
+    let s0 := start LoopEnv p.period p.stamp p.houses p.world
+    (∀ n s, stateAt LoopEnv n s0 = some s → Outlined F s.world) ∧
+    Outlined F (p.run fuel).2.world ∧
+    (∀ (w : World τ) (i : Nat), Outlined F w →
+      ((w.framers i).status = .running ∨ (w.framers i).status = .started) →
+      (table i .abort w).exc = none →
+      ∃ l, (l = [] ∨ ∃ f, l = outline (F i) f) ∧ (w.framers i).actives = l ∧
+        (table i .abort w).w.trace = w.trace ++ l.reverse.flatMap
+          (fun g => marksOf i g .exit (frameOf (w.framers i) g).exacts)) := by
+  intro F s0
+  have hinit : ∀ k, (p.world.framers k).actives = [] := by
+    intro k
+    unfold Program.wellFormed at hwf
+    simp only [Bool.and_eq_true, List.all_eq_true] at hwf
+    simp only [Program.world]
+    by_cases hk : k < p.framers.length
+    · simp only [List.getD_eq_getElem?_getD, List.getElem?_eq_getElem hk, Option.getD_some]
+      have := hwf.2 p.framers[k] (List.getElem_mem hk)
+      simpa using this.1.1.1.2
+    · have : p.framers[k]? = none := by simp; omega
+      simp [List.getD_eq_getElem?_getD, this]
+  have hstart : Outlined F s0.world := by
+    apply start_inv (I := fun s : St τ (World τ) => Outlined F s.world)
+    · intro s i hi k
+      exact keepA_aok (keepA_trans (keepA_setDesire i _ s.world) (keepA_setStatus i .stopped _)) (hi k)
+    · intro k; exact ⟨rfl, Or.inl (hinit k)⟩
+  refine ⟨fun n s hs => stateAt_inv (outlined_step F) hstart n s hs, run_inv (outlined_step F) fuel _ hstart, ?_⟩
+  intro w i ho hlive hexc
+  refine ⟨(w.framers i).actives, (ho i).2, rfl, ?_⟩
+  exact ((C03_abort_exits_bottom_up i w hlive).2 hexc).1
+
+/-- non-vacuity: a framer whose first frame 1 lies under frame 0 goes 1 → 2 (another top-level frame) → back
+to 1 and is interrupted there; both visits enter 0 then 1 and leave 1 then 0 -/
+def demoRound : Program Rat :=
+  { period := 1/8, stamp := 0, houses := [{ fronts := [], mids := [0], backs := [] }],
+    framers := [
+      { active := true, period := 0, first := 1, frames := [
+          { enacts := [.record], exacts := [.record] },
+          { over := some 0, enacts := [.record], exacts := [.record], trans := [(1, 2)] },
+          { enacts := [.record], exacts := [.record], trans := [(1, 1)] }] }],
+    boundaryCrash := some (2, .keyboardInterrupt) }
+
+example :
+    demoRound.wellFormed = true ∧ (demoRound.run 50).1 = .returned .interrupted ∧
+    (demoRound.run 50).2.world.trace.filterMap (fun o => match o with | .mark _ f ctx => some (f, ctx) | _ => none) =
+      [(0, .enter), (1, .enter), (1, .exit), (0, .exit), (2, .enter), (2, .exit),
+       (0, .enter), (1, .enter), (1, .exit), (0, .exit)] ∧
+    (match stateAt LoopEnv 1 (start LoopEnv demoRound.period demoRound.stamp demoRound.houses demoRound.world) with
+     | some s => (s.world.framers 0).actives | none => []) = [0, 1] ∧
+    (match stateAt LoopEnv 2 (start LoopEnv demoRound.period demoRound.stamp demoRound.houses demoRound.world) with
+     | some s => (s.world.framers 0).actives | none => []) = [2] := by
+  decide +kernel
+
 /-- part 1 applies to every run of a well-formed program: the start state satisfies the world invariant
 of `C03_loopEnv_faithful`, has distinct ids in the deque (if no framer is declared twice) and nothing aborted -/
 theorem C03_program_applies (p : Program τ) (hwf : p.wellFormed = true) (hnd : (declared p.houses).Nodup) :
